@@ -28,6 +28,7 @@ def offStep (off : List Nat) : Ev → List Nat
   | .shb _ t n _ => if n = 0 then t :: off else off.filter (· ≠ t)
   | .clone _ new _ _ _ => off.filter (· ≠ new)
   | .reload _ t n _ => if n = 0 then t :: off else off.filter (· ≠ t)
+  | .zshb s _ => off.filter (· ≠ s)
   | _ => off
 
 def beatFresh (seen : List Nat) : Ev → Bool
@@ -688,6 +689,20 @@ theorem JI_step {j : JState} {seen off : List Nat} (h : JI j seen off) (e : Ev)
     split
     · rename_i hc; rw [if_pos hc] at hacc; exact absurd hacc (flagV_bad_ne rfl)
     · exact ⟨h.nodup, h.hseen, h.hoff, h.exp⟩
+  | zshb s n =>
+    refine ⟨rfl, rfl, ?_⟩
+    simp only [judge1] at hacc ⊢
+    split
+    · rename_i hc; rw [if_pos hc] at hacc; exact absurd hacc (flagV_bad_ne rfl)
+    · rename_i hc
+      have hop : opAllowed j = true := by simpa using hc
+      split
+      · exact JI_off_mono h (fun o ho => (mem_filter_ne ho).1)
+      · refine JI_off_mono (JI_jSet h s n (opAllowed_ne hop)) ?_
+        intro o ho
+        split
+        · exact List.mem_cons_of_mem _ (mem_filter_ne ho).1
+        · exact ho
   | coBegin o => exact ⟨rfl, rfl, h⟩
   | coEnd o => exact ⟨rfl, rfl, h⟩
   | passLimit =>
@@ -818,6 +833,12 @@ theorem judge1_bad (j : JState) (e : Ev) : (judge1 j e).bad = j.bad ∨ ∃ v, (
   | rp o => exact Or.inl rfl
   | rpNone o => exact Or.inl rfl
   | rpDone o => simp only [judge1]; split <;> first | exact Or.inl rfl | exact Or.inr ⟨_, rfl⟩
+  | zshb s n =>
+    simp only [judge1]; split
+    · exact Or.inr ⟨_, rfl⟩
+    · split
+      · exact Or.inl rfl
+      · exact Or.inl (jSet_frame j s n).bad
   | coBegin o => exact Or.inl rfl
   | coEnd o => exact Or.inl rfl
   | passLimit => simp only [judge1]; split <;> first | exact Or.inl rfl | exact Or.inr ⟨_, rfl⟩
@@ -1111,6 +1132,13 @@ theorem quiet_step (j : JState) (e : Ev) (hq : quietExp j.expect = true) (hnt : 
   | rp o => exact hq
   | rpNone o => exact hq
   | rpDone o => simp only [judge1]; split <;> exact hq
+  | zshb s n =>
+    simp only [judge1]
+    split
+    · exact hq
+    · split
+      · exact hq
+      · rw [(jSet_frame j s n).expect]; exact hq
   | coBegin o => exact hq
   | coEnd o => exact hq
   | passLimit => simp only [judge1]; split <;> exact hq
